@@ -75,6 +75,13 @@ class BorrowSpec:
         return self.underlying.throw(exc)
 
 
+    def send(self, value):
+        # forwarded like throw(); a closed handle yields nothing more
+        if self.closed or not hasattr(self.underlying, "send"):
+            raise StopIteration
+        return self.underlying.send(value)
+
+
 def borrow(iterator):
     return BorrowSpec(iterator)
 
